@@ -74,6 +74,11 @@ impl std::fmt::Display for SNode {
     }
 }
 
+/// the generic small-payload program of `misc.rs`, instantiated with std's types
+pub fn types_digest() -> String {
+    crate::misc_types_digest!(Rc, Weak)
+}
+
 #[derive(Default)]
 pub struct SWorld {
     pub n: usize,
